@@ -264,6 +264,19 @@ def build(case):
             q = vec6(n2.getPosition())[:3]
             return any(seg_box_float(p, q, lo, hi) for lo, hi in grown)
         rec.coll_fn = coll_own
+    elif case["coll_cb"] == "own_numpy":
+        # the same kind of detector written with numpy: its verdict is a numpy.bool_ (truthy / falsy like any bool,
+        # but not the singletons True / False)
+        m = 0.05
+        glo = np.array([[l - m for l in lo] for lo, hi in boxes], dtype=float).reshape(-1, 3)
+        ghi = np.array([[h + m for h in hi] for lo, hi in boxes], dtype=float).reshape(-1, 3)
+
+        def coll_np(n1, n2):
+            p = vec6(n1.getPosition())[:3]
+            q = vec6(n2.getPosition())[:3]
+            hits = np.array([seg_box_float(p, q, glo[i], ghi[i]) for i in range(len(glo))], dtype=bool)
+            return np.any(hits)
+        rec.coll_fn = coll_np
     else:
         raise ValueError(case["coll_cb"])
     return rrt, rec, boxes
@@ -294,7 +307,7 @@ def _check_run(case, ctx, tm, PathNode):
     dmin, dmax = float(case["dmin"]), float(case["dmax"])
     rrt, rec, boxes = build(case)
     start_key = np.asarray([float(v) for v in case["start"]], dtype=float).tobytes()
-    margin = 0.06 if case["coll_cb"] == "own_margin" else 1e-9
+    margin = 0.06 if case["coll_cb"] in ("own_margin", "own_numpy") else 1e-9
     if inside_any([float(v) for v in case["start"]][:3], boxes, margin):
         ctx.skip("start pose inside an obstruction (no edge can leave it)")
     goal = tm([float(v) for v in case["goal"]])
@@ -556,7 +569,7 @@ def runs(draw, max_iter):
     if api == "general":
         gen_cb = draw(st.sampled_from(["default", "default", "position_only", "goal_bias", "pool"]))
         dist_cb = draw(st.sampled_from(["default", "default", "scaled", "weighted6", "climb"]))
-        coll_cb = draw(st.sampled_from(["default", "default", "own_margin"]))
+        coll_cb = draw(st.sampled_from(["default", "default", "own_margin", "own_numpy"]))
     else:
         gen_cb = dist_cb = coll_cb = "default"
     # a position-only generator plans in 3-D: the start carries no rotation either (otherwise, under a metric that
